@@ -1316,11 +1316,13 @@ from gen_achain import g_achain
 from gen_bddsim import g_bddsim
 from gen_binrel import g_binrel
 from gen_cacheh import g_cacheh
+from gen_glue import g_glue
+from gen_cliargs import g_cliargs
 
 
 GENERATORS = {
     "apisweep": g_apisweep,
-    "ordvec": g_ordvec, "achain": g_achain, "bddsim": g_bddsim, "binrel": g_binrel, "cacheh": g_cacheh,
+    "ordvec": g_ordvec, "achain": g_achain, "bddsim": g_bddsim, "binrel": g_binrel, "cacheh": g_cacheh, "glue": g_glue, "cliargs": g_cliargs,
     **{k: mk_cliop(v) for k, v in CLIOPS.items()},
     "meta": g_meta, "metaf": g_metaf,
     "parse": g_parse,
